@@ -31,7 +31,7 @@ WriteRet(d, n, ret, err) == /\ ret = n /\ err = "" /\ wdone[d] + n <= wcalled[d]
 \* Read hands over the NEXT contiguous range of the peer's stream, unaltered, never beyond what was written
 ReadRet(d, off, n, ok, err) ==
     /\ ok /\ off = delivered[d] /\ delivered[d] + n <= wcalled[d]
-    /\ (err = "" \/ closed)                                     \* no error on a healthy connection
+    /\ (err = "" \/ closed \/ hs[IF d = "c2s" THEN "c" ELSE "s"] = "hclosed")   \* no error on a healthy connection
     /\ delivered' = [delivered EXCEPT ![d] = @ + n]
     /\ UNCHANGED <<wcalled, wdone, hs, closed>>
 \* quiescent (nothing in flight, receivers parked): every byte whose Write returned has been delivered
@@ -39,6 +39,13 @@ Quiesce(d, del, wd) == /\ del = delivered[d] /\ wd = wdone[d]
                        /\ delivered[d] = wdone[d]               \* NoStall
                        /\ UNCHANGED bsvars
 Close == closed' = TRUE /\ UNCHANGED <<wcalled, wdone, delivered, hs>>
+\* the writer of direction d closed its side after its last Write returned (hs[side] = "hclosed"): the reader of d then sees
+\* the end of the stream - but only after EVERYTHING that was written (GracefulEnd), however the last bytes and the
+\* end-of-stream indication reach it (separately, or in one Read of the underlying connection)
+Writer(d) == IF d = "c2s" THEN "c" ELSE "s"
+HalfClose(d) == /\ hs[Writer(d)] = "ok" /\ wdone[d] = wcalled[d]
+                /\ hs' = [hs EXCEPT ![Writer(d)] = "hclosed"] /\ UNCHANGED <<wcalled, wdone, delivered, closed>>
+GracefulEnd(d) == hs[Writer(d)] = "hclosed" /\ delivered[d] = wdone[d]
 
 \* invariants (checked at every step of every trace)
 Prefix == \A d \in Dirs : delivered[d] <= wcalled[d] /\ wdone[d] <= wcalled[d]
